@@ -439,7 +439,8 @@ def main(tier, seed):
             sc = ["new W D writer", "append W " + " ".join(hexb(bytes([97 + (i % 26)]) * (1 + i % 5)) for i in range(L)), "drop W", "open W D", "info W"]
             sc += ["get W %d" % i for i in sorted(set(list(range(min(L, 10))) + [r.randrange(L) for _ in range(4)] + [L - 1, L]))]
             ref_ans, ref_files = run_config(base, sc, "vec", "off")
-            for (srv, dk, cache) in [(base, "vec", "default"), (base, "vec", "tiny"), (base, "file", "default")]:
+            for (srv, dk, cache) in ([(base, "vec", "default"), (base, "vec", "tiny")] if tier == "quick" else
+                                     [(base, "vec", "default"), (base, "vec", "tiny"), (base, "file", "default")]):
                 res.count("length-sweep:%s/%s" % (dk, cache))
                 ans, files = run_config(srv, sc, dk, cache)
                 if ans != ref_ans or files != ref_files:
